@@ -14,8 +14,8 @@ PID = 'C17'
 SPECIAL_BASE = ("palette is a set.\nqueue is a list.\npalette contains 1, 2, 3.\nqueue contains first, second, third.\n"
                 "A time is a temporal concept expressed in minutes ranging from 07:30 AM to 08:00 AM with a length of 10 minutes.\n"
                 "A node is identified by an id, and has a weight.\nA worker is identified by an id.\nA visit is identified by an id, and by a time.\n"
-                "Every worker can paint a node.\n"
-                "A color is identified by a name.\nAn assignment is identified by a node, and by a color.\nEvery node can be assigned to exactly 1 color.\n")
+                "A color is identified by a name.\nAn assignment is identified by a node, and by a color.\n"
+                "Every worker can paint a node.\nEvery node can be assigned to exactly 1 color.\n")
 
 
 def faults_generic(concept, other):
